@@ -118,6 +118,7 @@ let answer (line : string) : unit =
             | "code" -> unit_conv conv_code
             | "wrap" -> unit_conv conv_wrap
             | "empty" -> unit_conv conv_empty
+            | "broken" -> unit_conv conv_broken
             | "count" -> let (st, r) = build_def conv_count O syms opts hints in fin (int_of_nat st, r)
             | _ -> failwith "conv"))
   | ["R"; h] -> print_endline (hex (py_repr_str (unhex h)))
